@@ -166,7 +166,19 @@ def run(rep: Report, tier: str) -> None:
     ifd, lpd = assignment_guard(vs, "self.dependencies")
     tv = P.func("vtlengine.duckdb_transpiler.Transpiler.SQLTranspiler.visit_Start")
     ret_names = {r.value.id for r in walk_no_nested(tv.node) if isinstance(r, ast.Return) and isinstance(r.value, ast.Name)}
-    other_returns = [r for r in walk_no_nested(tv.node) if isinstance(r, ast.Return) and r.value is not None and not isinstance(r.value, ast.Name)]
+    def _same_list(v: ast.AST) -> Optional[str]:
+        # `queries`, `list(queries)`, `tuple(queries)`, `queries[:]`, `queries.copy()` all hand back the appended list in its own order
+        if isinstance(v, ast.Name):
+            return v.id
+        if isinstance(v, ast.Call) and isinstance(v.func, ast.Name) and v.func.id in ("list", "tuple") and len(v.args) == 1 and isinstance(v.args[0], ast.Name) and not v.keywords:
+            return v.args[0].id
+        if isinstance(v, ast.Call) and isinstance(v.func, ast.Attribute) and v.func.attr == "copy" and isinstance(v.func.value, ast.Name) and not v.args:
+            return v.func.value.id
+        if isinstance(v, ast.Subscript) and isinstance(v.value, ast.Name) and isinstance(v.slice, ast.Slice) and v.slice.lower is None and v.slice.upper is None and v.slice.step is None:
+            return v.value.id
+        return None
+    ret_names = {_same_list(r.value) for r in walk_no_nested(tv.node) if isinstance(r, ast.Return) and r.value is not None and _same_list(r.value)}
+    other_returns = [r for r in walk_no_nested(tv.node) if isinstance(r, ast.Return) and r.value is not None and _same_list(r.value) is None]
     rep.instance("R13.2", "queries-in-statement-order", nontrivial=True, sample={"returns": [src(r)[:60] for r in walk_no_nested(tv.node) if isinstance(r, ast.Return)]})
     if other_returns:
         # the execution numbers the queries 1..n and looks the numbers up in the schedule built from the statement order: anything but the one list
